@@ -14,6 +14,27 @@ from .values import (ClassVal, Cursor, DictObj, FrameObj, FuncVal, ListObj, Opt,
 FEAS_TIMEOUT_MS = 400
 
 
+_QCACHE: dict = {}
+
+
+def _has_quantifier(e):
+    if not z3.is_expr(e):
+        return False
+    k = e.get_id()
+    if k in _QCACHE:
+        return _QCACHE[k]
+    r = False
+    if z3.is_quantifier(e):
+        r = True
+    else:
+        for ch in e.children():
+            if _has_quantifier(ch):
+                r = True
+                break
+    _QCACHE[k] = r
+    return r
+
+
 class LoopSpec:
     """Sidecar specification of one loop (or comprehension) of the target function.
 
@@ -88,14 +109,15 @@ class Interp(ExprMixin):
         self.ctx.obligations.append(ob)
 
     def feasible(self, state):
+        """Over-approximate path feasibility: only the quantifier-free part of the path condition is consulted (dropping
+        hypotheses can only make an infeasible path look feasible, never the converse), so the check stays cheap."""
         s = z3.Solver()
         s.set("timeout", FEAS_TIMEOUT_MS)
         for a in INTERN.axioms():
             s.add(a)
-        for h in state.pc:
-            s.add(h)
-        for h in state.guards:
-            s.add(h)
+        for h in list(state.pc) + list(state.guards):
+            if not _has_quantifier(h):
+                s.add(h)
         r = s.check()
         return r != z3.unsat
 
